@@ -43,6 +43,11 @@ type SType struct {
 	Range   string
 	Length  string
 	Pattern []string
+	// how the type is written in YANG (the values are those of Base either way):
+	// "" inline, "typedef" through a module-level typedef, "union" as first member of a union, "leafref" as a leafref to a sibling leaf
+	Wrap       string
+	WrapID     int
+	WrapTarget string
 }
 
 type SNode struct {
@@ -183,7 +188,26 @@ func yq(s string) string {
 // imported grouping (the library resolves identity names in the using module; C02 covers that defect).
 var identBasePrefix = ""
 
+// typedefPrefix is how leaves rendered in the augmenting module name typedefs of the main module
+var typedefPrefix = ""
+
 func (t *SType) yang(ind string) string {
+	switch t.Wrap {
+	case "typedef":
+		return fmt.Sprintf("type %std%d;", typedefPrefix, t.WrapID)
+	case "union":
+		other := "boolean"
+		if t.Base == "boolean" {
+			other = "int8"
+		}
+		return "type union {\n" + ind + "  " + t.inline(ind+"  ") + "\n" + ind + "  type " + other + ";\n" + ind + "}"
+	case "leafref":
+		return "type leafref { path \"../" + t.WrapTarget + "\"; }"
+	}
+	return t.inline(ind)
+}
+
+func (t *SType) inline(ind string) string {
 	var b strings.Builder
 	switch t.Base {
 	case "enumeration":
@@ -329,6 +353,11 @@ func (s *Schema) Yang() string {
 	if s.Extra != "" {
 		b.WriteString(s.Extra)
 	}
+	s.Walk(func(n *SNode) {
+		if n.Type != nil && n.Type.Wrap == "typedef" {
+			fmt.Fprintf(&b, "  typedef td%d {\n    %s\n  }\n", n.Type.WrapID, n.Type.inline("    "))
+		}
+	})
 	if s.AugName != "" {
 		// freeconf's cross-module pattern: the main module offers a grouping, the augmenting module
 		// uses it and augments its own tree (see nodeutil/testdata/example-barmod.yang)
@@ -353,7 +382,8 @@ func (s *Schema) AugYang() string {
 	}
 	s.link()
 	identBasePrefix = s.Prefix + ":"
-	defer func() { identBasePrefix = "" }()
+	typedefPrefix = s.Prefix + ":"
+	defer func() { identBasePrefix = ""; typedefPrefix = "" }()
 	var b strings.Builder
 	fmt.Fprintf(&b, "module %s {\n  namespace \"urn:%s\";\n  prefix %s;\n  import %s { prefix %s; }\n  revision 2020-01-01;\n  uses %s:g;\n", s.AugName, s.AugName, s.AugName, s.Name, s.Prefix, s.Prefix)
 	s.Walk(func(n *SNode) {
@@ -471,6 +501,7 @@ type GenOpts struct {
 	KeyTypes     []string
 	Aug          bool // contribute some nodes from an augmenting module
 	Presence     bool
+	Wraps        bool // write some leaf types through a typedef, as a union member or as a leafref to a sibling
 }
 
 var AllTypes = []string{"int8", "int16", "int32", "int64", "uint8", "uint16", "uint32", "uint64", "decimal64", "string", "boolean", "enumeration", "bits", "identityref", "binary", "empty"}
@@ -478,7 +509,7 @@ var PlainKeyTypes = []string{"string", "int32", "int64", "uint8", "uint32", "enu
 
 func DefaultGen() GenOpts {
 	return GenOpts{MaxDepth: 3, MaxChildren: 5, Choices: false, Lists: true, CompoundKeys: true, LeafLists: true, Defaults: true,
-		Types: AllTypes, KeyTypes: PlainKeyTypes}
+		Types: AllTypes, KeyTypes: PlainKeyTypes, Wraps: true}
 }
 
 type gen struct {
@@ -568,6 +599,9 @@ func (g *gen) children(depth int, scope map[string]bool, inList bool) []*SNode {
 			out = append(out, g.leaf(scope, g.o.Types))
 		}
 	}
+	if g.o.Wraps {
+		g.wrap(out)
+	}
 	if g.o.NonConfig {
 		for _, c := range out {
 			if g.r.Intn(4) == 0 && !(c.Kind == Leaf && false) {
@@ -577,6 +611,53 @@ func (g *gen) children(depth int, scope map[string]bool, inList bool) []*SNode {
 		}
 	}
 	return out
+}
+
+// wrap rewrites how the types of some direct leaf children are spelled (the value space stays the same)
+func (g *gen) wrap(kids []*SNode) {
+	var leaves []*SNode
+	for _, c := range kids {
+		if (c.Kind == Leaf || c.Kind == LeafList) && c.Type != nil {
+			leaves = append(leaves, c)
+		}
+	}
+	isTarget := map[*SNode]bool{} // a leaf other leafrefs point at keeps its own type
+	for _, c := range leaves {
+		if c.Type.Wrap != "" || c.Type.Base == "empty" {
+			continue
+		}
+		k := g.r.Intn(8)
+		if k == 2 && isTarget[c] {
+			continue
+		}
+		switch k {
+		case 0:
+			g.seq++
+			c.Type.Wrap, c.Type.WrapID = "typedef", g.seq
+		case 1:
+			if c.Type.Base != "bits" && c.Type.Base != "binary" {
+				c.Type.Wrap = "union"
+			}
+		case 2:
+			// leafref to a sibling leaf that is written plainly: this leaf takes over the sibling's type
+			for _, tgt := range leaves {
+				if tgt != c && tgt.Kind == Leaf && tgt.Type.Wrap == "" && tgt.Type.Base != "empty" && (c.Kind == Leaf || (tgt.Type.Base != "binary" && tgt.Type.Base != "bits")) {
+					t := *tgt.Type
+					t.Wrap, t.WrapTarget = "leafref", tgt.Name
+					c.Type = &t
+					isTarget[tgt] = true
+					if c.Default != nil {
+						d := RandScalar(g.r, c.Type, false)
+						c.Default = nil
+						if !strings.ContainsAny(d, "\"\\\n\t") && c.Type.Base != "binary" {
+							c.Default = &d
+						}
+					}
+					break
+				}
+			}
+		}
+	}
 }
 
 func without(l []string, drop ...string) []string {
